@@ -1,5 +1,5 @@
 (* C13 - No reply can make a query reserve unbounded memory.
-   Rows proved so far: valve::query. *)
+   Rows proved: every UDP protocol of the library. *)
 From GD Require Import Base.Prelude Model.Strings Model.Buffer Model.Net Model.Valve Model.Quake Model.Unreal2 Proofs.Msafe Proofs.ValveTotal Proofs.QuakeTotal Proofs.Unreal2Total.
 
 (* every reservation whose size comes from a field of a reply is at most 1 MiB
@@ -30,3 +30,42 @@ Example c13_ex_huge :
              (net_init [Datagram ([254; 255; 255; 255; 1; 0; 0; 128; 1; 0; 224; 4] ++ [255; 255; 255; 255; 0; 0; 0; 0; 66; 90])] [] []) in
   fst n = Err Decompress /\ reserves (snd n) = [].
 Proof. split; reflexivity. Qed.
+
+(* GameSpy 1 / 2 / 3, JC2-MP, Savage 2, Mindustry, Minecraft Bedrock: no reservation is driven by a
+   field of a reply (GameSpy 1 did reserve `maxplayers` slots before fix 9a43a73) *)
+From GD Require Import Model.Gamespy Model.Games Model.View Model.Minecraft Proofs.GamesTotal Proofs.GamespyTotal Proofs.ValveGamesTotal.
+Theorem c13_gamespy_no_reserve : forall port t u tc sf, settings_ok t ->
+  reserves (snd (gs1_query port t (net_init u tc sf))) = []
+  /\ reserves (snd (gs2_query port t (net_init u tc sf))) = []
+  /\ reserves (snd (gs3_query port t (net_init u tc sf))) = []
+  /\ reserves (snd (gs3_query_vars port t (net_init u tc sf))) = []
+  /\ reserves (snd (jc2m_query port t (net_init u tc sf))) = [].
+Proof.
+  exact (fun port t u tc sf H =>
+    conj (proj1 (proj2 (proj2 (gamespy1_contract port t H u tc sf))))
+   (conj (proj1 (proj2 (proj2 (gamespy2_contract port t H u tc sf))))
+   (conj (proj1 (proj2 (proj2 (gamespy3_contract port t H u tc sf))))
+   (conj (proj1 (proj2 (proj2 (gamespy3_vars_contract port t H u tc sf))))
+         (proj1 (proj2 (proj2 (jc2m_contract port t H u tc sf)))))))).
+Qed.
+Print Assumptions c13_gamespy_no_reserve.
+Theorem c13_single_games_no_reserve : forall port t u tc sf, settings_ok t ->
+  reserves (snd (savage2_query port t (net_init u tc sf))) = []
+  /\ reserves (snd (mindustry_query port t (net_init u tc sf))) = []
+  /\ reserves (snd (query_bedrock port t (net_init u tc sf))) = [].
+Proof.
+  exact (fun port t u tc sf H =>
+    conj (proj1 (proj2 (proj2 (savage2_contract port t H u tc sf))))
+   (conj (proj1 (proj2 (proj2 (mindustry_contract port t H u tc sf))))
+         (proj1 (proj2 (proj2 (bedrock_contract port t H u tc sf)))))).
+Qed.
+Print Assumptions c13_single_games_no_reserve.
+(* The Ship and Battalion 1944: the Valve bound *)
+Theorem c13_valve_games_reserves_bounded : forall bz, (forall p s, safe (bz p s)) -> forall port t u tc sf, settings_ok t ->
+  Forall (fun k => k <= max_decompressed_size) (reserves (snd (theship_query bz port t (net_init u tc sf))))
+  /\ Forall (fun k => k <= max_decompressed_size) (reserves (snd (battalion_query bz port (net_init u tc sf)))).
+Proof.
+  exact (fun bz Hbz port t u tc sf Hs => conj (proj1 (proj2 (proj2 (theship_contract bz Hbz port t Hs u tc sf))))
+                                              (proj1 (proj2 (proj2 (battalion_contract bz Hbz port u tc sf))))).
+Qed.
+Print Assumptions c13_valve_games_reserves_bounded.
